@@ -2,6 +2,7 @@
    behaviour that only the race detector on the real code can exhibit). *)
 From Coq Require Import List ZArith Arith Bool.
 From Verif Require Import Concurrent.
+From Verif Require IndexRace.
 Import ListNotations.
 Open Scope Z_scope.
 
@@ -17,3 +18,13 @@ Theorem C16_conflict_has_no_effect : forall s a d v ver,
   snap_of (sn s) a = Some (v, ver) -> ver <> version (st s) -> st (step s (Commit a d)) = st s.
 Proof. exact conflict_has_no_effect. Qed.
 Print Assumptions C16_conflict_has_no_effect.
+
+(* index creation against concurrent creates: as snapshot transactions with a conflict check on read keys both commit
+   and the document created in between has no index entry - the full statement ("every call that reported success has
+   its effect in the final state") is false of the faithful model; the witness replayed on the real node is the
+   recorded finding F61 *)
+Theorem C16_index_build_race_refuted :
+  let s := fst (IndexRace.run [IndexRace.BeginBuild; IndexRace.BeginCreate 1; IndexRace.CommitCreate 1; IndexRace.CommitBuild]) in
+  IndexRace.indexed s = true /\ In 1%nat (IndexRace.docs s) /\ ~ In 1%nat (IndexRace.entries s).
+Proof. exact IndexRace.index_build_race_refuted. Qed.
+Print Assumptions C16_index_build_race_refuted.
